@@ -107,6 +107,9 @@ def start_texts(cfg, rng, n_random, equations=0.25):
         yield "edge-text", s, []
     for s in BIG_TEXTS:
         yield "big-text", s, []
+    for s in ARM_TEXTS:
+        for v in WE.substituted(s):
+            yield "near-text", v, []
     for i, s in enumerate(corp):
         if cfg.mine(i):
             yield "corpus", s, []
